@@ -179,10 +179,7 @@ func (in *slInst) apply(op string) bool {
 		in.dirty = true
 	case "add": // AddState bypasses the undo log and does not load the origin value.
 		// The repository uses it (a) for brand-new keys and (b) right after a read of the
-		// same key; those are the uses explored. Never inside a snapshot scope.
-		if len(in.snaps) > 0 {
-			return false
-		}
+		// same key; those are the uses explored (also inside snapshot scopes: the write is journaled).
 		if _, live := in.baseModel().st[f[1]+"|"+f[2]]; live && !in.touched[f[1]+"|"+f[2]] {
 			return false
 		}
